@@ -208,6 +208,10 @@ func (r *MMapReader) ReadNextAt(offset uint64) ([]byte, error) {
 			if err != nil {
 				return nil, fmt.Errorf("failed decompressing record at offset %d in mmap reader for '%s': %w", offset, r.path, err)
 			}
+			err = checkDecompressedLength(len(decompressedRecord), payloadSizeUncompressed)
+			if err != nil {
+				return nil, err
+			}
 			// we do a defensive copy here not to leak the pooled slice
 			returnSlice = make([]byte, len(decompressedRecord))
 			copy(returnSlice, decompressedRecord)
@@ -252,6 +256,10 @@ func readNextAtV1(r *MMapReader, offset uint64) ([]byte, error) {
 		recordBuffer, err = r.header.compressor.Decompress(recordBuffer)
 		if err != nil {
 			return nil, fmt.Errorf("failed decompressing record at offset %d in mmap reader for '%s': %w", offset, r.path, err)
+		}
+		err = checkDecompressedLength(len(recordBuffer), payloadSizeUncompressed)
+		if err != nil {
+			return nil, err
 		}
 	}
 	return recordBuffer, nil
@@ -301,6 +309,10 @@ func readNextAtV2(r *MMapReader, offset uint64) ([]byte, error) {
 		decompressedRecord, err := r.header.compressor.DecompressWithBuf(pooledRecordBuf, pooledDecompressionBuffer)
 		if err != nil {
 			return nil, fmt.Errorf("failed decompressing record at offset %d in mmap reader for '%s': %w", offset, r.path, err)
+		}
+		err = checkDecompressedLength(len(decompressedRecord), payloadSizeUncompressed)
+		if err != nil {
+			return nil, err
 		}
 		// we do a defensive copy here not to leak the pooled slice
 		returnSlice = make([]byte, len(decompressedRecord))
@@ -361,6 +373,10 @@ func readNextAtV3(r *MMapReader, offset uint64) ([]byte, error) {
 		decompressedRecord, err := r.header.compressor.DecompressWithBuf(pooledRecordBuf, pooledDecompressionBuffer)
 		if err != nil {
 			return nil, fmt.Errorf("failed decompressing record at offset %d in mmap reader for '%s': %w", offset, r.path, err)
+		}
+		err = checkDecompressedLength(len(decompressedRecord), payloadSizeUncompressed)
+		if err != nil {
+			return nil, err
 		}
 		// we do a defensive copy here not to leak the pooled slice
 		returnSlice = make([]byte, len(decompressedRecord))
